@@ -72,10 +72,14 @@ type verifSrv struct {
 
 func verifServerWorld(nsps ...string) *verifSrv {
 	w := &verifSrv{}
-	creator := func() parser.Parser { return verifRecParser{log: &w.encoded} }
+	return verifServerWorldWith(w, func() parser.Parser { return verifRecParser{log: &w.encoded} }, adapter.NewInMemoryAdapterCreator(), nsps...)
+}
+
+// verifServerWorldWith: the same with a given codec and adapter (session-aware adapter for connection state recovery).
+func verifServerWorldWith(w *verifSrv, creator parser.Creator, ac adapter.Creator, nsps ...string) *verifSrv {
 	w.server = &Server{
 		parserCreator:         creator,
-		adapterCreator:        adapter.NewInMemoryAdapterCreator(),
+		adapterCreator:        ac,
 		namespaces:            newNspStore(),
 		debug:                 newNoopDebugger(),
 		newNamespaceHandlers:  newHandlerStore[*ServerNewNamespaceFunc](),
